@@ -266,4 +266,19 @@ theorem runItems_spec : ∀ (l : List Item) (s : St),
         simp [hb'.1, hb'.2]
 end
 
+/-- running a sequence is running its parts one after the other (when the first part succeeds) -/
+theorem runItems_append (l1 l2 : List Item) (s : St) (h : (runItems l1 s).ok = true) :
+    (runItems (l1 ++ l2) s).trace = (runItems l1 s).trace ++ (runItems l2 s).trace ∧
+    (runItems (l1 ++ l2) s).ok = (runItems l2 s).ok ∧ (runItems (l1 ++ l2) s).st = s := by
+  induction l1 with
+  | nil => simp [runItems, (runItems_spec l2 s).1]
+  | cons i rest ih =>
+    have hst := (runItem_spec i s).1
+    simp only [runItems, List.cons_append] at h ⊢
+    cases hok : (runItem i s).ok
+    · simp [hok] at h
+    · simp only [hok, ↓reduceIte, hst] at h ⊢
+      have ih' := ih h
+      simp [ih'.1, ih'.2.1, ih'.2.2, List.append_assoc]
+
 end Jap.PathMode
